@@ -144,6 +144,9 @@ def run(ctx):
         fp = f"verif.{e['op']}/{clause}/sub={e.get('sub', '-')},mode=trace"
         ctx.violation(fp, f"recorded history of {len(hist)} calls: {short(e)} disagrees with the specification on {clause}",
                       {"kind": "verif-history", "history": hist})
+    # (3) the tracker inside the end-to-end session (Link.tla)
+    from .. import link
+    link.run_stage(ctx)
     ctx.exhaustive = True
     ctx.extra["exhaustive_note"] = "all histories of the bounded configurations; random histories (<= 200 calls, <= 6 TCs) beyond"
 
@@ -176,6 +179,9 @@ def histories(ctx):
 
 def replay(r):
     from spacepackets.ecss.pus_verificator import PusVerificator
+    if r["kind"] == "link-path":
+        from .. import link
+        return link.replay(r)
     if r["kind"] == "verif-path":
         w = World(r["n"])
         v = PusVerificator()
